@@ -16,4 +16,19 @@ var propTable = map[string]*propSpec{
 			"the flag-gated dynamic dispatch c.f(t,c) may be cut from reachability because R-GATE proves the flag check dominates it",
 		},
 	},
+	"C04": {
+		ID:    "C04",
+		Rules: []string{"R-REGTABLE", "R-ARITY", "R-POS", "R-DIVZERO", "R-PANIC", "R-NARROW", "R-RECURSION", "R-ALLOC"},
+		Explanation: "Decides structural necessary conditions of 'no Lua source or program can crash the embedding Go process', each of which flags a construct that is a Go panic or a fatal error for some input: " +
+			"(R-ARITY) no registered Go function reads an argument slot beyond its declared arity without a guard; (R-POS) every normalised string position is proved in range before it indexes/slices the subject or is handed to the matcher/unpacker; " +
+			"(R-DIVZERO) every integer division has a divisor excluded from zero on every path; (R-PANIC) every explicit panic is below a recover that keeps its type on every call chain from the API, or is a table-listed internal invariant; " +
+			"(R-NARROW) every integer narrowing in the code generator is range-checked (implementation limits become compile errors, not wrapped encodings); (R-RECURSION) every call-graph cycle reachable from the API passes a structurally recognised depth guard or is table-listed with its bound; " +
+			"(R-ALLOC) every computed-size allocation is bounded by memory held, charged first, and — for lengths decoded from input — compared with the input left.",
+		NotDecided: "absence of every Go run-time error (nil dereference, arbitrary index expressions, map writes): Go's type system does not give that and a general bounds prover is out of reach; what the VM does with a hand-forged binary chunk that decodes successfully (there is no bytecode verifier in the repository); out-of-memory caused by a legitimately huge program-chosen size in a context without limits.",
+		Assumptions: []string{
+			"VTA+CHA call graph over-approximates calls; callbacks from standard-library frames are followed only when the entering module function can have supplied the callee (it converts a value of that type to an interface, references the function, or forwards interface/function parameters)",
+			"table entries (internalPanics, recursionTable, narrowTable, allocTable, nonZeroFields) were each confirmed by reading; entries with a structural precondition have it re-verified on every run",
+			"nothing recovers Go run-time errors between the VM and the host, so an index out of range or a negative make() is a crash",
+		},
+	},
 }
